@@ -40,7 +40,10 @@ def cases(draw, tier="quick"):
 def large_cases(tier):
     """tens of states: reachability closures, closed-class detection and the linear solves on realistic sizes"""
     return st.tuples(st.one_of(large_mdp_specs("negative", max_actions=3, max_out=4), large_mdp_specs("negative", max_actions=2, max_out=2),
-                               large_mdp_specs("discounted"), large_mdp_specs("discounted", gammas=NEAR_ONE)),
+                               large_mdp_specs("discounted"), large_mdp_specs("discounted", gammas=NEAR_ONE),
+                               # beyond the round numbers at which an implementation may switch method (100 states)
+                               large_mdp_specs("discounted", min_states=101, max_states=150, max_actions=2, max_out=3),
+                               large_mdp_specs("negative", min_states=101, max_states=140, max_actions=2, max_out=2)),
                      st.integers(0, 2 ** 32), st.integers(0, 3)).map(
         lambda t: {"mdp": t[0], "policy": large_policy(t[0], t[1]), "perm_seed": t[2]})
 
